@@ -8,6 +8,7 @@ import (
 	"sync"
 	"time"
 
+	chandlers "github.com/mimecast/dtail/internal/clients/handlers"
 	"github.com/mimecast/dtail/internal/mapr"
 	maprclient "github.com/mimecast/dtail/internal/mapr/client"
 )
@@ -93,6 +94,15 @@ func init() {
 			wg.Add(1)
 			go func(s int) {
 				defer wg.Done()
+				// every second connection is a real client handler fed with framed records (group keys with a '|' in them:
+				// what "group by $line" over piped log formats produces), the others call the Aggregate directly
+				if s%2 == 1 {
+					h := chandlers.NewMaprHandler(fmt.Sprintf("s%d", s), query, global)
+					for m := 0; m < c.Messages; m++ {
+						h.Write(append([]byte(fmt.Sprintf("AGGREGATE|s%d|g|%d∥1∥count(x)≔1∥", s, (s+m)%3)), 0xac))
+					}
+					return
+				}
 				agg := maprclient.NewAggregate(fmt.Sprintf("s%d", s), query, global)
 				for m := 0; m < c.Messages; m++ {
 					msg := fmt.Sprintf("g%d∥1∥count(x)≔1∥", (s+m)%3)
